@@ -18,11 +18,18 @@ class _Normalise(ast.NodeTransformer):
     operand of a comparison is always on the right (`None is x` ->
     `x is None`, `0 < n` -> `n > 0`)."""
 
+    @staticmethod
+    def _const(e):
+        """a literal, or arithmetic on literals (b'\\xff' * 6)"""
+        return all(isinstance(x, (ast.Constant, ast.BinOp, ast.UnaryOp,
+                                  ast.operator, ast.unaryop))
+                   for x in ast.walk(e))
+
     def visit_Compare(self, node):
         self.generic_visit(node)
         if len(node.ops) == 1 and type(node.ops[0]) in _MIRROR and \
-                isinstance(node.left, ast.Constant) and not isinstance(
-                    node.comparators[0], ast.Constant):
+                self._const(node.left) and not self._const(
+                    node.comparators[0]):
             new = ast.Compare(left=node.comparators[0],
                               ops=[_MIRROR[type(node.ops[0])]()],
                               comparators=[node.left])
